@@ -5,6 +5,7 @@ import Revm.Proofs.EvmLinkPay
 import Revm.Proofs.EvmLinkHost
 import Revm.Props.C34
 import Revm.Proofs.EvmLinkStatic4
+import Revm.Proofs.EvmLinkGasInv4
 /-! C01Link — the whole-transaction model `Revm.Model.Evm.transact` (C01) SATISFIES the component properties.
 
 `Evm.transact` (EvmTx / EvmFrame / EvmLoop / EvmHost) was written independently of the component models that carry the
@@ -20,12 +21,11 @@ Sections: 1 validation (C02) · 2 gas and fees (C09) · 3 frame depth (C07) · 4
 warm (C34) · 5 static mode (C10).
 
 What is hypothesised and not proved here: `loadSender … = .ok …` (the journal can load the sender: no `unwrap` panic in
-the journal model, the code store knows the sender's code hash); `FrameAccounting`, the frame machine's guarantee
-`res.gasRemaining ≤ gas_limit − initial_gas` for the first frame's result (the visible hypothesis of C09 and of C01
-`transact_gas_bounds`; C25's `StepOk` would give it per frame, but lifting it through `Evm.runLoop` needs the memory
-handed back by a child to re-establish the parent's `Inv`, a bound on the output of a halting frame and a bound on the
-code store, none of which C25 exports); for C34 the history `lockRun … = some l` leading to the world's journal, and for
-the static frame theorem the two items listed at `FullStatement_static_frame_state_equal`. -/
+the journal model, the code store knows the sender's code hash); for C34 the history `lockRun … = some l` leading to the
+world's journal; for the static frame theorem see `FullStatement_static_frame_state_equal`.
+The frame machine's guarantee (`FrameAccounting`: the first frame gives back at most `gas_limit − initial_gas`, the
+visible hypothesis of C09 and of C01 `transact_gas_bounds`) IS proved here, through `Evm.runLoop`
+(`evm_frame_accounting`), so the gas and fee corollaries carry no such hypothesis. -/
 namespace Revm.Props.C01Link
 open Revm Revm.Model Revm.Model.Evm
 open Revm.Proofs.EvmLink
@@ -209,16 +209,40 @@ theorem evm_deduct_caller_eq_txgas (e : Evm.Env) (spec : Nat) (w w' : World) (h 
 example : ∃ r w', Evm.transact 10 sampleWorld sampleEnv 17 = .ok (.executed r, w') :=
   exists_of_isExecuted (by decide +kernel)
 
-/-- the frame machine's guarantee holds of the sample transaction (its hypothesis is satisfiable) -/
-example : FrameAccounting 10 sampleWorld sampleEnv 17 := frameAccounting_of_check (by decide +kernel)
+/-! ### frame accounting through `Evm.runLoop` -/
+
+/-- LINK (C13 / C25 gas accounting on the interpreter `Evm.runLoop` runs): one step of ANY frame in ANY state keeps
+`is_static` and the limit of its gas meter, only spends gas, and an action it hands out (CALL family, CREATE, EOFCREATE,
+EXT*CALL — directly or after the host's answer) has paid for the child's gas limit:
+`remaining' + child_gas_limit ≤ remaining` (for a CALL with value the 2300 stipend is covered by the 9000 surcharge) -/
+theorem evm_step_gas_accounting (s : Interp.IState) : KOutcome s (Interp.step s) := step_kept s
+
+/-- the loop invariant "every open frame's remaining ≤ its limit, and a child's limit ≤ what the parent paid", along
+ANY run of `run_the_loop` (no fuel in the statement): from a state satisfying it, every state passed satisfies it, and
+the first frame's result gives back at most the first frame's gas limit `L0` -/
+theorem evm_loop_gas_invariant (cfg : Cfg) (L0 : Nat) (n m : Next Journal.Checkpoint) (t : Steps cfg n m)
+    (hi : GasNext L0 n) : GasNext L0 m := steps_gas t hi
+
+/-- a state satisfying the invariant: one fresh frame -/
+example : GasNext 100000 (.run [
+    { kind := .call 0 0, checkpoint := { logI := 0, journalI := 1 },
+      interp := Interp.IState.init [] [] 100000 false 17 0 0 0 {} Memory.new }] sampleWorld) :=
+  .run (Nat.le_refl _) rfl
+
+/-- COROLLARY — **the frame machine's guarantee, the hypothesis of C09 (`Admissible.frame_remaining`) and of C01
+`transact_gas_bounds`, holds of the whole-EVM model**: for every world, transaction, fork and fuel, the first frame of
+`Evm.transact` gives back at most the gas it was given, `gas_limit − initial_gas` -/
+theorem evm_frame_accounting (fuel : Nat) (w : World) (e : Evm.Env) (spec : Nat) : FrameAccounting fuel w e spec :=
+  frameAccounting fuel w e spec
+
 
 open Revm.Model.Gas Revm.Model.TxGas in
 /-- COROLLARY (C09 `spent_bounds`, `used_le_limit`, `floor_le_used`, `used_eq_max` on `Evm.transact`): for a completed
-executed transaction — under the frame machine's guarantee — intrinsic gas ≤ gas spent ≤ gas limit, the reported
+executed transaction intrinsic gas ≤ gas spent ≤ gas limit, the reported
 `gas_used` is at most the gas limit, at least the EIP-7623 floor, and equals `max (spent − refunded) floor` -/
 theorem transact_spent_bounds (fuel : Nat) (w w' : World) (e : Evm.Env) (spec : Nat) (r : TxResult)
     (h : Evm.transact fuel w e spec = .ok (.executed r, w'))
-    (hL : e.tx.gasLimit < U64) (hfa : FrameAccounting fuel w e spec) :
+    (hL : e.tx.gasLimit < U64) :
     ∃ ig fg k res,
       initialGas e (GasCalc.canon spec) = some (ig, fg) ∧
       ig ≤ spent (Props.C09.afterRefund (gasEnv e (GasCalc.canon spec)) k (txFrame e ig res)) ∧
@@ -226,6 +250,7 @@ theorem transact_spent_bounds (fuel : Nat) (w w' : World) (e : Evm.Env) (spec : 
       r.gasUsed ≤ e.tx.gasLimit ∧ fg ≤ r.gasUsed ∧
       r.gasUsed = max (spent (Props.C09.afterRefund (gasEnv e (GasCalc.canon spec)) k (txFrame e ig res)) -
         gasRefunded (Props.C09.afterRefund (gasEnv e (GasCalc.canon spec)) k (txFrame e ig res))) fg := by
+  have hfa := frameAccounting fuel w e spec
   obtain ⟨ig, fg, k, res, w3, isCreate, hff, _, _, _, _, hu, _, _⟩ := transact_first_frame fuel w w' e spec r h
   have ha := admissible_of_firstFrame hff hL (hfa ig fg k res w3 hff) (U64ops.wsub e.tx.gasLimit ig)
   obtain ⟨w1, first, w2, ic, hp, _, _⟩ := hff
@@ -242,9 +267,10 @@ a fifth (London on; half before) of the gas spent, where spent = `gas_used + gas
 halt the reported refund is 0 -/
 theorem transact_refund_cap (fuel : Nat) (w w' : World) (e : Evm.Env) (spec : Nat) (r : TxResult)
     (h : Evm.transact fuel w e spec = .ok (.executed r, w'))
-    (hL : e.tx.gasLimit < U64) (hfa : FrameAccounting fuel w e spec) :
+    (hL : e.tx.gasLimit < U64) :
     r.gasRefunded ≤ (r.gasUsed + r.gasRefunded) / (if enabled (GasCalc.canon spec) GasCalc.SpecId.LONDON = true then 5 else 2) ∧
     (r.cls ≠ .success → r.gasRefunded = 0) := by
+  have hfa := frameAccounting fuel w e spec
   obtain ⟨ig, fg, k, res, w3, isCreate, hff, _, _, _, _, hu, hs, hn⟩ := transact_first_frame fuel w w' e spec r h
   have ha := admissible_of_firstFrame hff hL (hfa ig fg k res w3 hff) (U64ops.wsub e.tx.gasLimit ig)
   refine ⟨?_, hn⟩
@@ -260,10 +286,11 @@ open Revm.Model.Gas Revm.Model.TxGas in
 list, whose halt is not one of the two revert-class results `CallTooDeep` / `OutOfFunds`, uses its whole gas limit -/
 theorem transact_halt_uses_all_partial (fuel : Nat) (w w' : World) (e : Evm.Env) (spec : Nat) (r : TxResult)
     (h : Evm.transact fuel w e spec = .ok (.executed r, w'))
-    (hL : e.tx.gasLimit < U64) (hfa : FrameAccounting fuel w e spec)
+    (hL : e.tx.gasLimit < U64)
     (hcls : r.cls = .halt) (hauth : e.tx.authList = none)
     (hir : r.reason ≠ .CallTooDeep ∧ r.reason ≠ .OutOfFunds) :
     r.gasUsed = e.tx.gasLimit := by
+  have hfa := frameAccounting fuel w e spec
   obtain ⟨ig, fg, k, res, w3, isCreate, hff, hk, _, hc, hreason, hu, _, _⟩ := transact_first_frame fuel w w' e spec r h
   have ha := admissible_of_firstFrame hff hL (hfa ig fg k res w3 hff) (U64ops.wsub e.tx.gasLimit ig)
   rw [authLen_none hauth] at hk
@@ -291,7 +318,7 @@ theorem transact_halt_uses_all_partial (fuel : Nat) (w w' : World) (e : Evm.Env)
 refunded authority (C09 `halt_uses_all_counterexample`: the behaviour EIP-7702 specifies) -/
 def FullStatement_transact_halt_uses_all : Prop :=
   ∀ (fuel : Nat) (w w' : World) (e : Evm.Env) (spec : Nat) (r : TxResult),
-    Evm.transact fuel w e spec = .ok (.executed r, w') → e.tx.gasLimit < U64 → FrameAccounting fuel w e spec →
+    Evm.transact fuel w e spec = .ok (.executed r, w') → e.tx.gasLimit < U64 →
     r.cls = .halt → r.gasUsed = e.tx.gasLimit
 
 open Revm.Model.Gas Revm.Model.TxGas in
@@ -300,12 +327,13 @@ open Revm.Model.Gas Revm.Model.TxGas in
 authorities, at most the length of the authorization list -/
 theorem transact_halt_used_exact (fuel : Nat) (w w' : World) (e : Evm.Env) (spec : Nat) (r : TxResult)
     (h : Evm.transact fuel w e spec = .ok (.executed r, w'))
-    (hL : e.tx.gasLimit < U64) (hfa : FrameAccounting fuel w e spec)
+    (hL : e.tx.gasLimit < U64)
     (hcls : r.reason.isOk = false ∧ r.reason.isRevert = false)
     (hlen : 12500 * authLen e < 9223372036854775808) :
     ∃ ig fg k, initialGas e (GasCalc.canon spec) = some (ig, fg) ∧ k ≤ authLen e ∧
       r.gasUsed = max (e.tx.gasLimit - min (12500 * k)
         (e.tx.gasLimit / (if enabled (GasCalc.canon spec) GasCalc.SpecId.LONDON = true then 5 else 2))) fg := by
+  have hfa := frameAccounting fuel w e spec
   obtain ⟨ig, fg, k, res, w3, isCreate, hff, hk, _, hc, hreason, hu, _, _⟩ := transact_first_frame fuel w w' e spec r h
   have ha := admissible_of_firstFrame hff hL (hfa ig fg k res w3 hff) (U64ops.wsub e.tx.gasLimit ig)
   obtain ⟨w1, first, w2, ic, hp, _, _⟩ := hff
@@ -321,7 +349,7 @@ example : (Interp.IResult.OutOfGas).isOk = false ∧ (Interp.IResult.OutOfGas).i
 
 
 /-- COROLLARY (C09 `sender_pays` on the RESULT of `Evm.transact`): for a completed executed transaction — validated
-sender balance below 2^256, the frame machine's guarantee — the sender pays exactly
+sender balance below 2^256 — the sender pays exactly
 `effective gas price · gas_used + blob fee` through the two fee legs of the handler:
 * the balance validation saw covers `gas_limit · eff + blob_fee`, and the `deduct_caller` inside `prepare` (run on the
   world after `load_accounts`) finds that very balance and leaves it lower by exactly that amount (no saturation);
@@ -330,7 +358,7 @@ sender balance below 2^256, the frame machine's guarantee — the sender pays ex
   (the sender is not the beneficiary). -/
 theorem transact_sender_pays (fuel : Nat) (w w' : World) (e : Evm.Env) (spec : Nat) (r : TxResult)
     (h : Evm.transact fuel w e spec = .ok (.executed r, w'))
-    (hL : e.tx.gasLimit < U64) (hfa : FrameAccounting fuel w e spec) :
+    (hL : e.tx.gasLimit < U64) :
     ∃ (w1 : World) (accV : Journal.Acct) (code : List Nat) (ig fg k : Nat) (res : Interp.ChildResult) (w3 : World),
       loadSender w e.tx.caller = .ok (w1, accV, code) ∧
       FirstFrameResult fuel w e spec ig fg k res w3 ∧
@@ -346,6 +374,7 @@ theorem transact_sender_pays (fuel : Nat) (w w' : World) (e : Evm.Env) (spec : N
           accF.info.balance = U256.saturatingAdd accX.info.balance
             (e.tx.gasLimit * effPrice e spec + blobFeeOf e spec -
               (effPrice e spec * r.gasUsed + blobFeeOf e spec)))) := by
+  have hfa := frameAccounting fuel w e spec
   obtain ⟨w1, accV, code, ig, fg, k, res, w3, hl, hff, hrest⟩ := transact_payments fuel w w' e spec r h hL hfa
   refine ⟨w1, accV, code, ig, fg, k, res, w3, hl, hff, fun hW => ?_⟩
   obtain ⟨a, b, c, d, _⟩ := hrest hW
@@ -356,13 +385,14 @@ the account `reward_beneficiary` loaded (`accB`) plus exactly `(effective price 
 `effective price · gas_used` before — no 256-bit wrap in the product; the addition saturates -/
 theorem transact_beneficiary_gets (fuel : Nat) (w w' : World) (e : Evm.Env) (spec : Nat) (r : TxResult)
     (h : Evm.transact fuel w e spec = .ok (.executed r, w'))
-    (hL : e.tx.gasLimit < U64) (hfa : FrameAccounting fuel w e spec) :
+    (hL : e.tx.gasLimit < U64) :
     ∃ (w1 : World) (accV : Journal.Acct) (code : List Nat),
       loadSender w e.tx.caller = .ok (w1, accV, code) ∧
       (accV.info.balance < W →
         ∃ (wy : World) (accB accG : Journal.Acct), wy.acct e.block.coinbase = .ok accB ∧
           w'.js.state e.block.coinbase = some accG ∧
           accG.info.balance = U256.saturatingAdd accB.info.balance (tipPrice e spec * r.gasUsed)) := by
+  have hfa := frameAccounting fuel w e spec
   obtain ⟨w1, accV, code, ig, fg, k, res, w3, hl, hff, hrest⟩ := transact_payments fuel w w' e spec r h hL hfa
   exact ⟨w1, accV, code, hl, fun hW => (hrest hW).2.2.2.2⟩
 
